@@ -588,6 +588,25 @@ func (e *Env) call(x *ast.CallExpr) Val {
 		if e.heap == nil {
 			e.fail(x, "capturedVar in a heap-free spec function")
 		}
+		// by name; if the literal captures no variable of that name (renamed), the only captured variable of type T
+		if ix, ok := x.Fun.(*ast.IndexExpr); ok {
+			byName := false
+			for _, fv := range fn.FreeVars {
+				byName = byName || fv.Name() == vn
+			}
+			if !byName {
+				want := e.typeOf(ix.Index)
+				cands := []string{}
+				for _, fv := range fn.FreeVars {
+					if pt, ok := fv.Type().(*types.Pointer); ok && types.Identical(pt.Elem(), want) {
+						cands = append(cands, fv.Name())
+					}
+				}
+				if len(cands) == 1 {
+					vn = cands[0]
+				}
+			}
+		}
 		for i, fv := range fn.FreeVars {
 			if fv.Name() != vn {
 				continue
